@@ -93,6 +93,8 @@ func (p *parser) parsePipeline(allowUnwrap bool) (stages []PipelineStage, err er
 				// Only for metricExpr.
 				// Allow caller parse it afterwards.
 				if allowUnwrap {
+					// Unread both "|" and "unwrap".
+					p.unread()
 					p.unread()
 					return stages, nil
 				}
